@@ -251,13 +251,32 @@ func alphabet(r role) []call {
 			a = append(a, call{fmt.Sprintf("ForceDisqualify(#%d)", p), "fd", p, nil})
 		}
 	}
-	bm := map[string][]byte{"empty": {}, "junk": {9, 1, 2}, "vector": vec, "complaint": complaint, "answer": answer}
+	// further well-formed-but-unwelcome messages: they move the instance into the states in which a
+	// complaint is pending, an answer is stored, a dealer is disqualified
+	wrongShare := append([]byte{}, share...)
+	wrongShare[len(wrongShare)-1] ^= 1
+	badVector := append([]byte{}, vec...)
+	badVector[1] &^= 0x80
+	complaintOther := []byte{2, byte(other)}
+	answerSelf := append([]byte{3, byte(r.Me)}, share[1:]...)
+	wrongAnswer := append([]byte{}, answer...)
+	wrongAnswer[len(wrongAnswer)-1] ^= 1
+	bm := map[string][]byte{"empty": {}, "junk": {9, 1, 2}, "vector": vec, "complaint": complaint, "answer": answer,
+		"bad-vector": badVector, "complaint-against-other": complaintOther, "answer-for-self": answerSelf, "wrong-answer": wrongAnswer}
 	for _, o := range order {
-		for _, mn := range []string{"empty", "junk", "vector", "complaint", "answer"} {
+		kinds := []string{"empty", "junk", "vector", "complaint", "answer"}
+		if o == "dealer" || o == "other" {
+			kinds = append(kinds, "bad-vector", "complaint-against-other", "answer-for-self", "wrong-answer")
+		}
+		for _, mn := range kinds {
 			a = append(a, call{fmt.Sprintf("HandleBroadcastMsg(%s,%s)", o, mn), "hb", idx[o], bm[mn]})
 		}
-		for _, mn := range []string{"empty", "junk", "share"} {
-			d := map[string][]byte{"empty": {}, "junk": {9, 1, 2}, "share": share}[mn]
+		pk := []string{"empty", "junk", "share"}
+		if o == "dealer" || o == "other" {
+			pk = append(pk, "wrong-share")
+		}
+		for _, mn := range pk {
+			d := map[string][]byte{"empty": {}, "junk": {9, 1, 2}, "share": share, "wrong-share": wrongShare}[mn]
 			a = append(a, call{fmt.Sprintf("HandlePrivateMsg(%s,%s)", o, mn), "hp", idx[o], d})
 		}
 	}
@@ -484,16 +503,18 @@ func main() {
 		{dkgsys.JF, 3, 1, 0, 0, "participant0"},
 		{dkgsys.JF, 3, 1, 2, 0, "participant2"},
 	}
+	// (the memoised equivalence check made these affordable in the quick tier as well)
+	roles = append(roles, role{dkgsys.FVSSQ, 4, 2, 3, 1, "non-dealer"}, role{dkgsys.JF, 4, 2, 1, 0, "participant1"})
 	if run.Thorough() {
-		roles = append(roles, role{dkgsys.FVSSQ, 4, 2, 3, 1, "non-dealer"}, role{dkgsys.JF, 4, 2, 1, 0, "participant1"})
+		roles = append(roles, role{dkgsys.FVSSQ, 5, 2, 0, 0, "dealer"}, role{dkgsys.FVSS, 4, 2, 2, 0, "non-dealer"}, role{dkgsys.JF, 5, 2, 4, 0, "participant4"})
 	}
 	if run.Replay != "" {
-		all := append(roles, role{dkgsys.FVSSQ, 4, 2, 3, 1, "non-dealer"}, role{dkgsys.JF, 4, 2, 1, 0, "participant1"})
+		all := append(roles, role{dkgsys.FVSSQ, 5, 2, 0, 0, "dealer"}, role{dkgsys.FVSS, 4, 2, 2, 0, "non-dealer"}, role{dkgsys.JF, 5, 2, 4, 0, "participant4"})
 		replay(all)
 		return
 	}
 	ev.Par(len(roles), func(i int) { explore(roles[i], depth) })
-	run.Set("rule", "per (protocol, role): BFS from a fresh real instance over the call alphabet {Start(valid seed), Start(31-byte seed), NextTimeout, End, ForceDisqualify(every index 0..n-1 incl. its own|-1|n|255|256|256+dealer|65536+other), HandleBroadcastMsg/HandlePrivateMsg(origin in {-1,self,dealer,other,n,256+dealer} x message in {empty, junk tag, recorded well-formed vector/complaint/answer/share})}; successor = deep clone + real call; states deduplicated by (canonical hash of every instance field, model state); explored to fixpoint below the depth cap (depth_cap_hit reports whether the cap cut anything). Each call's error class and Running() are compared with the documented state machine; every rejected call is checked for non-interference (equal canonical state, else all continuations to depth 3). distinct_nontrivial = distinct reachable (instance state) classes.")
+	run.Set("rule", "per (protocol, role): BFS from a fresh real instance over the call alphabet {Start(valid seed), Start(31-byte seed), NextTimeout, End, ForceDisqualify(every index 0..n-1 incl. its own|-1|n|255|256|256+dealer|65536+other), HandleBroadcastMsg/HandlePrivateMsg(origin in {-1,self,dealer,other,n,256+dealer} x message in {empty, junk tag, recorded well-formed vector/complaint/answer/share; from the dealer and another participant also: vector with a cleared flag bit, complaint against another participant, answer for the instance itself, wrong-valued answer, wrong-valued share})}; successor = deep clone + real call; states deduplicated by (canonical hash of every instance field, model state); explored to fixpoint below the depth cap (depth_cap_hit reports whether the cap cut anything). Each call's error class and Running() are compared with the documented state machine; every rejected call is checked for non-interference (equal canonical state, else all continuations to depth 3). distinct_nontrivial = distinct reachable (instance state) classes.")
 	run.Set("depth_cap", depth)
 	run.Assume("reuse after End (Start after End) is outside the quantifier", "well-formed messages come from an honest dealer run with the same parameters")
 	run.Finish()
